@@ -361,7 +361,7 @@ static std::vector<Key> parse_pts(const std::string &line){ // after the tag
     std::vector<double> v; const char *p = line.c_str(); while(*p){ while(*p == ' ') p++; if (!*p) break; char *e; double d = strtod(p, &e); if (e == p) break; v.push_back(d); p = e; }
     std::vector<Key> r; for(size_t i=0;i+DIMS<=v.size(); i+=DIMS) r.push_back(key_of(&v[i])); return r;
 }
-static double g_child_timeout = 10.0;
+static double g_child_timeout = 20.0;
 static void clean_dir(){
     DIR *d = opendir(fs::dir.c_str()); if (!d) return; struct dirent *e; std::vector<std::string> names;
     while((e = readdir(d))){ std::string n = e->d_name; if (n != "." && n != "..") names.push_back(n); }
